@@ -5,6 +5,7 @@ CONSTANTS
   MaxSubs = 4
   Filts = {FALSE, TRUE}
   Withhold = FALSE
+  DeltaOpts = {TRUE, FALSE}
   AsCodedFilter = FALSE
 INVARIANTS TypeOK C14Map
 CHECK_DEADLOCK FALSE
